@@ -484,6 +484,92 @@ def C13_apply_patches_restores():
     return True, f"{n_cases} spec lists restored"
 
 
+def C13_rebinding_between_conversions():
+    """history: convert; the host rebinds a patched attribute; convert again (succeeding or failing).
+    After each conversion every patched attribute must resolve to what it was bound to before THAT call."""
+    import sys
+    import types
+    import jax.numpy as jnp
+    from jax2onnx import onnx_function, to_onnx
+    from jax2onnx.plugins import plugin_system as ps
+
+    mod = types.ModuleType("c13_hist_mod")
+    sys.modules["c13_hist_mod"] = mod
+    src = "def block(x):\n    return x * 2.0 + 1.0\n"
+    exec(src, mod.__dict__)
+    mod.block.__module__ = "c13_hist_mod"
+    mod.block = onnx_function(mod.block)
+
+    def model(x):
+        return mod.block(x) + 1.0
+
+    def check(label, before):
+        cur = mod.block
+        if cur is not before:
+            return f"{label}: module attribute `block` resolves to a different object than before the call"
+        return None
+
+    b0 = mod.block
+    to_onnx(model, [(3,)])
+    err = check("first conversion", b0)
+    if err:
+        return False, err
+    # the host rebinds the attribute (e.g. a re-run notebook cell)
+    exec("def block(x):\n    return x * 3.0\n", mod.__dict__)
+    mod.block.__module__ = "c13_hist_mod"
+    mod.block = onnx_function(mod.block)
+    b1 = mod.block
+    to_onnx(model, [(3,)])
+    err = check("second conversion after rebinding", b1)
+    if err:
+        return False, err
+    try:
+        to_onnx(lambda x: mod.block(x) + jnp.asarray(undefined_name), [(3,)])  # noqa: F821  fails while tracing
+    except Exception:
+        pass
+    err = check("failing conversion", b1)
+    if err:
+        return False, err
+    return True, "attributes resolve as before after 3 conversions with a rebinding in between"
+
+
+def D17_inherited_call_restored():
+    """an @onnx_function subclass that inherits __call__ from another @onnx_function class: after to_onnx
+    (which may raise) both classes must resolve __call__ as before and the subclass must not own one"""
+    import jax.numpy as jnp
+    from flax import nnx
+    from jax2onnx import onnx_function, to_onnx
+
+    @onnx_function
+    class BaseBlock(nnx.Module):
+        def __init__(self):
+            self.k = 2.0
+
+        def __call__(self, x):
+            return x * self.k
+
+    @onnx_function
+    class SubBlock(BaseBlock):
+        def __init__(self):
+            self.k = 3.0
+
+    b, s = BaseBlock(), SubBlock()
+    before = (BaseBlock.__call__, SubBlock.__call__, "__call__" in vars(SubBlock))
+    raised = None
+    try:
+        to_onnx(lambda x: b(x) + s(x), [(3,)])
+    except BaseException as e:  # RecursionError is fine for this property: it is loud
+        raised = type(e).__name__
+    after = (BaseBlock.__call__, SubBlock.__call__, "__call__" in vars(SubBlock))
+    if before[0] is not after[0] or before[1] is not after[1] or before[2] != after[2]:
+        return False, f"to_onnx {'raised ' + raised if raised else 'returned'}; afterwards SubBlock.__call__ is {'the same' if before[1] is after[1] else 'a different'} object and SubBlock {'owns' if after[2] else 'does not own'} __call__ (before: {'owns' if before[2] else 'inherits'})"
+    try:
+        v = np.asarray(b(jnp.ones(3)) + s(jnp.ones(3)))
+    except Exception as e:
+        return False, f"eager call after conversion fails: {type(e).__name__}: {str(e)[:100]}"
+    return True, f"classes restored (conversion {'raised ' + raised if raised else 'succeeded'}), eager result {v.tolist()}"
+
+
 def C13_x64_flag_restored():
     import jax
     from jax2onnx.converter.conversion_api import _force_jax_x64
@@ -565,6 +651,8 @@ ALL = {
     "C17_range_bounds_family": C17_range_bounds_family,
     "C13_apply_patches_restores": C13_apply_patches_restores,
     "C13_x64_flag_restored": C13_x64_flag_restored,
+    "D17": D17_inherited_call_restored,
+    "C13_rebinding_between_conversions": C13_rebinding_between_conversions,
     "D1": D1_max_nonscalar_side_operand,
     "D2": D2_reshape_max_nonscalar,
     "D3a": D3_transpose_chain_intermediate_is_output,
